@@ -273,13 +273,16 @@ def mutate_case(rng, case):
 
 
 CLAIMED = True
-LEVEL_TEXT = ("AST-level models of both readers (graph construction of the fast reader after its scans; effect of the Lark transformer "
-              "through the construction API) over literal tables regenerated from the source; theorems: see docs/C14.md (which are full, "
-              "which partial); the agreement statement for the whole subset is decided per rendered text by the Coq oracle on what the "
-              "two real readers returned (same inputs/outputs/registry/pin nets, graphs equal up to the constant nodes' names, same "
-              "function at outputs and blackbox input pins by exhaustive evaluation).")
+LEVEL_TEXT = ("Proved in Coq for every AST of the documented subset without blackbox instances (8 primitives at any arity, constants, "
+              "assigns, any statement order, loops): both reader models succeed and return circuits identical apart from the constant "
+              "nodes' names, with the same name/registry/inputs/outputs and matching consistent valuations on every net "
+              "(C14_fast_full_agree_prims/_assigns, C14_property_prims_assigns, C14_io_prims_assigns); for all ASTs: the fast reader "
+              "never raises inside the subset, same name and registry whenever both succeed; character level: split/strip/constant "
+              "replacement recover the operand list from any blank layout. ASTs with blackbox instances: see docs/C14.md for the "
+              "stage reached; what is not proved there is decided per rendered text by the Coq oracle on what the two real readers "
+              "returned. Models (AST level, literal tables regenerated from the source) are tied to the real readers by correspondence.")
 LEVEL_NOTE = ("Trusted: Coq kernel + vm_compute, std++, the harness renderer/subset reader (text <-> AST), translator plug-in fastv.py "
-              "(patterns captured from a live call, literal lists by AST shape, fail closed). The regex scanning layer and Lark's LALR "
-              "parser are tied by correspondence on the rendered texts, not proved. Bundled netlists above 40 nodes are compared in "
-              "Python only (support).")
+              "(patterns captured from a live call, literal lists by AST shape, fail closed). The regex scans (instance, pin, assign, "
+              "keyword patterns) and Lark's LALR parser are tied by correspondence on the rendered texts, not proved; split(',')/strip() "
+              "are proved and tied to Python by CSplit cases. Bundled netlists above 40 nodes are compared in Python only (support).")
 TECHNIQUE = "Coq models of both readers + regenerated literal/pattern tables with proof obligations + vm_compute correspondence and oracle"
